@@ -57,6 +57,12 @@ func dnsTypeIdx(t uint16) int {
 			return i
 		}
 	}
+	switch t {
+	case dnsmessage.TypeSVCB:
+		return 3
+	case dnsmessage.TypeHTTPS:
+		return 4
+	}
 	return -1
 }
 
@@ -366,6 +372,10 @@ func (w *dnsWorld) specOf(up, name int, qtype uint16) dnsAnsSpec {
 	k := [3]int{up, name, dnsTypeIdx(qtype)}
 	sp, ok := w.spec[k]
 	if !ok {
+		if k[2] >= 3 {
+			// SVCB / HTTPS questions (derived from TXT draws) use the script of the name's TXT answers
+			return w.specOf(up, name, dnsmessage.TypeTXT)
+		}
 		sp = dnsAnsSpec{}
 		w.spec[k] = sp
 	}
@@ -444,6 +454,9 @@ func (w *dnsWorld) newAnswer(up, name int, qtype uint16) *dnsAns {
 	if sp.drift {
 		shared = ((shared << (ver % 3)) | (shared >> (3 - ver%3))) & 7
 	}
+	if w.mode == dnsModeC09 && qtype == dnsmessage.TypeAAAA && name%2 == 1 {
+		sp.special = 1 // a v4-only host: AAAA is answered NODATA (empty answer section, NOERROR)
+	}
 	switch qtype {
 	case dnsmessage.TypeA:
 		if sp.special == 1 {
@@ -487,6 +500,11 @@ func (w *dnsWorld) newAnswer(up, name int, qtype uint16) *dnsAns {
 		for _, ip := range a.ips {
 			a.rrs = append(a.rrs, &dnsmessage.AAAA{Hdr: hdr(dnsmessage.TypeAAAA), AAAA: net.IP(ip.AsSlice())})
 		}
+	case dnsmessage.TypeSVCB:
+		// the serial travels in the priority field
+		a.rrs = append(a.rrs, &dnsmessage.SVCB{Hdr: hdr(dnsmessage.TypeSVCB), Priority: uint16(a.id), Target: "svc." + dnsAllNames[name] + "."})
+	case dnsmessage.TypeHTTPS:
+		a.rrs = append(a.rrs, &dnsmessage.HTTPS{SVCB: dnsmessage.SVCB{Hdr: hdr(dnsmessage.TypeHTTPS), Priority: uint16(a.id), Target: "svc." + dnsAllNames[name] + "."}})
 	default:
 		a.rrs = append(a.rrs, &dnsmessage.TXT{Hdr: hdr(dnsmessage.TypeTXT), Txt: []string{fmt.Sprintf("ans=%d", a.id)}})
 	}
@@ -562,6 +580,10 @@ func (w *dnsWorld) decodeAnswers(rrs []dnsmessage.RR) (ids []int, ips []netip.Ad
 				ips = append(ips, ip)
 				id = dnsDecodeUnique(ip)
 			}
+		case *dnsmessage.SVCB:
+			id = int(x.Priority)
+		case *dnsmessage.HTTPS:
+			id = int(x.Priority)
 		case *dnsmessage.TXT:
 			for _, t := range x.Txt {
 				var n int
@@ -894,9 +916,9 @@ func (w *dnsWorld) react(q *dnsUpQuery) {
 	kind := 0
 	switch {
 	case w.faulty >= 2 && w.envBudget > 0:
-		kind = T.Pick(12, 3, 1, 3, 3, 2, 2, 1, 1)
+		kind = T.Pick(12, 3, 1, 3, 3, 2, 2, 1, 1, 2)
 	case w.faulty == 1 && w.envBudget > 0:
-		kind = T.Pick(12, 3, 1, 0, 0, 0, 2, 1, 1)
+		kind = T.Pick(12, 3, 1, 0, 0, 0, 2, 1, 1, 1)
 	}
 	if q.name < 0 {
 		kind = 0
@@ -993,6 +1015,18 @@ func (w *dnsWorld) react(q *dnsUpQuery) {
 		w.recordSent(q, nil, q.wireId, "servfail")
 		s.Fault("upstream-servfail")
 		s.Notef("upstream %d -> query #%d: SERVFAIL", q.up, q.seq)
+	case 9: // NXDOMAIN (not cacheable), and a copy of it later
+		q.reacted = true
+		m := new(dnsmessage.Msg)
+		m.Id, m.Response, m.RecursionAvailable, m.Rcode = q.wireId, true, true, dnsmessage.RcodeNameError
+		m.Question = []dnsmessage.Question{{Name: q.qname, Qtype: q.qtype, Qclass: dnsmessage.ClassINET}}
+		p, _ := m.Pack()
+		w.deliver(q, p)
+		w.recordSent(q, nil, q.wireId, "nxdomain")
+		d := []time.Duration{0, time.Millisecond, 2 * time.Second, 9 * time.Second}[T.Choose(4)]
+		w.ghosts = append(w.ghosts, &dnsGhost{q: q, payload: p, notBefore: s.Now() + d, kind: "nxdomain-duplicate", wireId: q.wireId})
+		s.Fault("upstream-nxdomain")
+		s.Notef("upstream %d -> query #%d: NXDOMAIN, a duplicate follows after %v", q.up, q.seq, d)
 	case 8: // transport error on the reader
 		q.reacted = true
 		if q.tcp {
@@ -1046,7 +1080,11 @@ func (w *dnsWorld) installUpstreamEvents() {
 		}
 		w.deliver(g.q, g.payload)
 		w.recordSent(g.q, g.ans, g.wireId, g.kind)
-		s.Notef("upstream %d: %s of answer a%d (id %d) for query #%d delivered", g.q.up, g.kind, g.ans.id, g.wireId, g.q.seq)
+		aid := 0
+		if g.ans != nil {
+			aid = g.ans.id
+		}
+		s.Notef("upstream %d: %s of answer a%d (id %d) for query #%d delivered", g.q.up, g.kind, aid, g.wireId, g.q.seq)
 	}})
 }
 
@@ -1209,7 +1247,9 @@ type dnsRW struct {
 func (r *dnsRW) LocalAddr() net.Addr  { return &net.TCPAddr{IP: net.IPv4(10, 0, 0, 1), Port: 53} }
 func (r *dnsRW) RemoteAddr() net.Addr { return &net.TCPAddr{IP: net.IPv4(192, 168, 1, 9), Port: 4000} }
 func (r *dnsRW) WriteMsg(m *dnsmessage.Msg) error {
-	// the writer may reuse the message: keep a deep copy of what was written
+	// A writer serialises the message it was handed a little later (slow client
+	// connection, preempted goroutine): nobody may touch that message in between.
+	verifsim.Yield("client-writer-serialises")
 	b, err := m.Pack()
 	if err != nil {
 		r.w.s.Failf("c09-unpackable-reply", "reply written to client c%d op %d cannot be packed: %v", r.op.cli, r.op.idx, err)
